@@ -17,10 +17,16 @@ WaitingStandby == \E k \in Req : ActiveCo(k) /\ co[k].standby /\ chan[k].st = "o
 IdleFull(o) == Len(idle[o]) >= cfg.maxIdle
 InWr(c) == \E h \in wr : h.c = c
 
-\* cancelling a request that holds a connection taken from the pool ...
-G01 == ev.e = "Cancel" /\ ev.stage = "checkout" /\ (\E c \in Dial : InWr(c) /\ conn[c].st = "closed") /\ LiveIdleWaiter(ev.r)
-G02 == ev.e = "Cancel" /\ ev.stage = "checkout" /\ (\E c \in Dial : InWr(c) /\ conn[c].st = "open" /\ ~conn[c].busy) /\ IdleFull(req[ev.r].o) /\ cfg.maxIdle > 0
-G03 == ev.e = "Cancel" /\ ev.stage = "checkout" /\ (\E c \in Dial : InWr(c) /\ conn[c].st = "open") /\ LiveIdleWaiter(ev.r)
+\* cancelling a request that holds a connection taken from the pool at checkout time (action goals: they
+\* look at the state before the step)
+Popped(r) == co[r].h.c
+A01 == ev'.e = "Cancel" /\ ev'.stage = "checkout" /\ Popped(ev'.r) # 0 /\ conn[Popped(ev'.r)].st = "closed" /\ LiveIdleWaiter(ev'.r)
+A02 == ev'.e = "Cancel" /\ ev'.stage = "checkout" /\ Popped(ev'.r) # 0 /\ IsOpen(Popped(ev'.r)) /\ ~conn[Popped(ev'.r)].h2
+          /\ IdleFull(req[ev'.r].o) /\ cfg.maxIdle > 0
+A03 == ev'.e = "Cancel" /\ ev'.stage = "checkout" /\ Popped(ev'.r) # 0 /\ IsOpen(Popped(ev'.r)) /\ LiveIdleWaiter(ev'.r)
+NotA01 == [][~A01]_vars
+NotA02 == [][~A02]_vars
+NotA03 == [][~A03]_vars
 \* the owner of an HTTP/2 attempt goes away while others wait for it
 G04 == ev.e = "Cancel" /\ ReleasedStandby
 G05 == ev.e = "PollErr" /\ ReleasedStandby
@@ -59,7 +65,7 @@ G29 == ev.e = "Issue" /\ now > 0 /\ co[ev.r].h.c # 0 /\ Len(idle[ev.o]) >= 1
 G30 == ev.e = "DropPool" /\ ReleasedStandby
 G31 == ev.e = "HandBack" /\ ~cfg.alive
 
-NotG01 == ~G01  NotG02 == ~G02  NotG03 == ~G03  NotG04 == ~G04  NotG05 == ~G05  NotG06 == ~G06  NotG07 == ~G07  NotG08 == ~G08
+NotG04 == ~G04  NotG05 == ~G05  NotG06 == ~G06  NotG07 == ~G07  NotG08 == ~G08
 NotG09 == ~G09  NotG10 == ~G10  NotG11 == ~G11  NotG12 == ~G12  NotG13 == ~G13  NotG14 == ~G14  NotG15 == ~G15  NotG16 == ~G16
 NotG17 == ~G17  NotG18 == ~G18  NotG19 == ~G19  NotG20 == ~G20  NotG21 == ~G21  NotG22 == ~G22  NotG23 == ~G23  NotG24 == ~G24
 NotG25 == ~G25  NotG26 == ~G26  NotG27 == ~G27  NotG28 == ~G28  NotG29 == ~G29  NotG30 == ~G30  NotG31 == ~G31
